@@ -35,7 +35,7 @@ TEXT = {
                  "(the printer's text is an admissible layout of the rendered tokens of the quoted tree), lex_print*, parse_printFact / parse_printRule / parse_printCheck (the model's text "
                  "entry point reads the printed text back as the quoted statement), print_parse_denote_fact / _rule / _check (printed text denotes the same fact / rule / check, sets in "
                  "printed order), printDate_roundtrip for every instant before year 10000 (civil_from_days / days_from_civil inverse), and a proved failing example for every exclusion "
-                 "(negative integers, quotes in strings, invalid UTF-8, year >= 10000, empty sets, ill-formed names, unparenthesised precedence). Tied by PRINT cases (Lean printer text = "
+                 "(quotes in strings, invalid UTF-8, year >= 10000, empty sets, ill-formed names, unparenthesised precedence). Tied by PRINT cases (Lean printer text = "
                  "Biscuit.Code() text, same before/after serialization, block position 1 or 2) and by re-parsing every printed statement with the library's parser.",
         "note": COMMON_NOTE + "Not covered by the character-level theorems: the `Block { }` wrapper of printBlockCode, policies at content level (the printer has none), the library's #index print of strings inside sets, date literals as method receivers (conservative).",
         "technique": "Lean 4 proof (stack-machine invariant, composition with parse_render) + differential correspondence + round-trip witness search",
